@@ -93,6 +93,16 @@ claim('C05', 'DESIGN.md 4/C05',
       'Instances are seeded integer/rational arrays of 4 wavenumbers; chi for unequal volumes judged up to a positive prefactor; '
       'PY solvation judged where 1 + CSC > 0; logarithm and back-transform applied by the harness (numpy, reference dense matrices).')
 
+claim('C16', 'DESIGN.md 4/C16',
+      'TLA+ spec SystemLife.tla (configuration items with versions, PRISM objects as frozen snapshots) model-checked with TLC over '
+      'all Systems with <= 2 items missing and all edit/create/solve histories to a bounded depth; every behaviour replayed on real '
+      'System/PRISM objects with, after every step, a deep fingerprint of the System and the wiring of every live PRISM against fresh '
+      'potentials/omegas built from its snapshot, solved results against freshly built Systems; System events of the repository tests '
+      'and sweep drivers validated against Trace_SystemLife.tla',
+      'TLC checks CreateRaisesIffIncomplete, NeverStartsOnPartialSystem, SystemUntouchedByCreateSolve, SnapshotFrozen, '
+      'SnapshotFaithful, SweepEqualsFresh; conformance binds each to the real objects.',
+      'Two site types, two versions per item, <= 2 live PRISM objects, 3 (4) steps; solved results at 1e-5; unconverged solves skipped.')
+
 ALL = ['C%02d' % i for i in range(1, 19)]
 
 
